@@ -87,8 +87,16 @@ def payloadOf (ws : List String) : Option Bytes := do
       | [n, b] => do let n ← n.toNat?; let b ← b.toNat?; some (List.replicate n (b % 256))
       | _ => none
     | none => some []
+  let inv ← match kv ws "invgen" with
+    | some g =>
+      match g.splitOn ":" with
+      | [n, b] => do
+        let n ← n.toNat?; let b ← b.toNat?
+        some (varIntEnc n ++ (List.range n).flatMap (fun i => [1, 0, 0, 0] ++ leN 8 (b + i) ++ List.replicate 24 0))
+      | _ => none
+    | none => some []
   let tail ← match kv ws "tail" with | some h => hexToBytes h | none => some []
-  some (pay ++ fill ++ tail)
+  some (pay ++ fill ++ inv ++ tail)
 
 def applyCut (ws : List String) (b : Bytes) : Bytes :=
   match kvNat ws "cut" with
